@@ -261,7 +261,9 @@ class SRC:
 
             desc = cls.getMaintProcDesc(procName)
             if desc:
-                out["Description"] = json.loads(desc)
+                desc = json.loads(desc)
+                json.dumps([[desc]], indent=4, allow_nan=False)
+                out["Description"] = desc
         except Exception:
             # A failure to describe one procedure must not disable the
             # callout parser for the rest of the run.
@@ -404,6 +406,13 @@ class SRC:
             value = self.parse(hexwords)
             # A parser with nothing to add returns '', JSON null or None
             if value and value != 'null':
-                out["SRC Details"] = json.loads(value)
+                try:
+                    details = json.loads(value)
+                    # It must also be possible to print them inside the PEL
+                    json.dumps([[details]], indent=4, allow_nan=False)
+                    out["SRC Details"] = details
+                except (ValueError, RecursionError) as e:
+                    print(f"Error getting SRC details for "
+                          f"{self.asciiString.strip()}: {e}", file=sys.stderr)
 
         return out
